@@ -222,7 +222,9 @@ def replay(rp):
 def plan(tier, seed):
     if tier == 'quick':
         return [{'rc': True, 'n': 20000}] + [{'ncases': 120, 'nenc': 4, 'run_every': 4} for _ in range(32)]
-    return [{'rc': True, 'n': 1000000}] + [{'ncases': 1000, 'nenc': 12, 'run_every': 3} for _ in range(64)]
+    # rapidcheck slows down super-linearly with max_success (80 000 cases take 10x the time of 20 000): many seeded runs of
+    # 60 000 cases each instead of one long one
+    return [{'rc': True, 'n': 60000} for _ in range(16)] + [{'ncases': 1000, 'nenc': 12, 'run_every': 3} for _ in range(64)]
 
 
 def run(tier, seed):
